@@ -154,6 +154,10 @@ impl<TS: TimeSource> BeaconSerializer<TS> {
 
     fn peerlist_decode(&self, data: &str, ttl_hours: Option<u16>) -> Vec<SocketAddr> {
         let mut data = from_base62(data).expect("Invalid input");
+        // The base62 encoding drops leading zero bytes, restore them (valid lengths are 4 + 6 * n)
+        while data.len() % 6 != 4 {
+            data.insert(0, 0);
+        }
         let mut peers = Vec::new();
         let mut pos = 0;
         if data.len() < 4 {
